@@ -203,5 +203,9 @@ fn main() {
         }
         t
     });
+    // the whole exploration once more against the subject built under a non-default compile-time configuration
+    // (mc/variants/cfg_alt/build.env: HalfUp, precision 34, Display thresholds 3 / 9, padding limit 50)
+    run.bound("build_variants", "default configuration (this process) + cfg_alt (child process, same domain)");
+    run.variant("cfg_alt");
     run.finish();
 }
